@@ -78,6 +78,8 @@ fn run(rng: &mut Rng, _idx: u64, tier: Tier) -> CaseOut {
         fopts.bin_ops = ALL_BIN.to_vec();
     }
     let extra_k = rng.below(3) as u16;
+    // variable names that look like operators, constants, spare-variable names, ...
+    nopts.hostile_names = rng.chance(1, 6);
     let net = crate::net::gen_net(rng, &nopts);
     let f = gen_formula(rng, &fopts, &net.names);
     let k = f.quant_depth() as u16 + extra_k;
